@@ -104,12 +104,12 @@ CONF = {
         "require_classes": ["refresh:autort", "refresh:autoinj", "refresh:manual", "write-overlaps-render", "write-errdone", "writes>=2", "cancelled", "late-write", "repeated-payload", "unterminated-write", "write-after-delay", "write>32KiB"],
     },
     "C15": {
-        "rule": "cases = fault plans: the k-th Fill of one bar, the k-th extender call of one bar, the k-th output Write (error or short write) or the k-th terminal-size query (pty) fails, k in 1..4 (half of the cases, so every site kind x small k is covered many times over) or 1..12; 1-6 bars with 0-2 synchronised decorators per side in every layout, slow decorators and directed holds between width exchange and flush, manual / injected auto / real ticker refresh, n<=q and n>q; non-trivial = the fault fired while >=2 bars carry synchronised decorators; distinct by FNV-64 of the scenario JSON",
+        "rule": "cases = fault plans: the k-th Fill of one bar, the k-th extender call of one bar, the k-th output Write (error or short write) or the k-th terminal-size query (pty) fails, k in 1..4 (half of the cases, so every site kind x small k is covered many times over) or 1..12; 1-6 bars with 0-2 synchronised decorators per side in every layout, slow decorators and directed holds between width exchange and flush, manual / injected auto / real ticker refresh, n<=q and n>q, containers with a render delay (pending, released by the program, or ended by the failing Fill call itself); non-trivial = the fault fired while >=2 bars carry synchronised decorators; distinct by FNV-64 of the scenario JSON",
         "assumptions": GO_ASSUME + SCHED_ASSUME + ["fault sites are enumerated by kind and small k through the generator's weighting, not by a nested loop", "hangs of runs whose fault never fired are left to C01", "a worker process that dies (panic in a library goroutine) is a violation: the statement says no panic; the journalled scenario is the replay file"],
         "level": "fault_enumeration",
         "crash_is_violation": True,
         "tiers": tiers(8, 1500, 16, 20000),
-        "require_classes": ["refresh:manual", "refresh:autoinj", "refresh:autort", "fault:filler", "fault:extender", "fault:output", "fault:termsize", "others-sync", "hold", "two-faults-fired", "slow-debug-output", "write-after-error", "no-debug-output"],
+        "require_classes": ["refresh:manual", "refresh:autoinj", "refresh:autort", "fault:filler", "fault:extender", "fault:output", "fault:termsize", "others-sync", "hold", "two-faults-fired", "slow-debug-output", "write-after-error", "no-debug-output", "fault-with-render-delay", "fault-ends-render-delay"],
     },
     "C16": {
         "rule": "cases = scenarios drawn from the generators of C01 (concurrent clients, n>q, sync decorators), C15 (render faults at every site), C14 (cancel/Shutdown as a step) and C03 (auto refresh with early refresh, pop, queued bars), each run 1-4 times in a row in one process, followed by a goroutine-dump poll; non-trivial = auto refresh, a fired fault, a cancel or a notifier was involved; distinct by FNV-64 of the scenario JSON",
@@ -150,9 +150,9 @@ CONF = {
     },
     "C18": {
         "rule": "cases = pop-completed scenarios: 1-8 bars finishing (complete, abort, abort with drop, remove-on-complete) in any order and in the same cycle, extender rows, text in between, no-pop bars, queued successors, byte buffers and ptys, manual refresh (exact frame model), injected auto refresh and a real ticker (final screen only); non-trivial = bars popped in >=2 different cycles and >=1 frame after the last pop (exact runs) or >=2 popped bars and >=4 frames; distinct by FNV-64 of the scenario JSON",
-        "assumptions": GO_ASSUME + SCHED_ASSUME + ["final screen = scrollback + screen of the VT emulator after the whole output", "open finding C18-popped-bar-cut-by-height is excluded from the generator by construction (ptys are made tall enough for all rows) and probed by its reproducer", "hangs are left to C01"],
+        "assumptions": GO_ASSUME + SCHED_ASSUME + ["final screen = scrollback + screen of the VT emulator after the whole output", "with more rows than the height, which of the bars still in the container the last frame shows is judged only under manual refresh (exact frame model); popped bars must be on screen exactly once in every mode", "hangs are left to C01"],
         "tiers": tiers(8, 2500, 16, 40000),
-        "require_classes": ["refresh:manual", "refresh:autoinj", "refresh:autort", "pty", "exact-model", "popped>=2", "same-cycle-pops", "nopop", "extender", "text", "priority-change-mid-render"],
+        "require_classes": ["refresh:manual", "refresh:autoinj", "refresh:autort", "pty", "exact-model", "popped>=2", "same-cycle-pops", "nopop", "extender", "text", "priority-change-mid-render", "rows-exceed-height"],
     },
     "C05": {
         "rule": "cases = sequential scenarios (container config, 1-7 bar specs, program of add/incr/set/abort/priority/write/tick/cancel steps) drawn by rapid; non-trivial = >=3 frames and >=1 change of the displayed set between frames; distinct by FNV-64 of the scenario JSON",
